@@ -114,16 +114,26 @@ func ExtractAlternate(c pdf.Cursor, obj pdf.Object, _ bool) (*Alternate, error) 
 		if err != nil {
 			return nil, fmt.Errorf("invalid Image: %w", err)
 		}
-		// alternates of alternates not allowed per spec
-		mask.Alternates = nil
+		// alternates of alternates not allowed per spec; the mask is shared
+		// through the extractor's cache, so clear the entry on a copy
+		if mask.Alternates != nil {
+			clone := *mask
+			clone.Alternates = nil
+			mask = &clone
+		}
 		img = mask
 	} else {
 		d, err := pdf.Decode(c, imgObj, ExtractDict)
 		if err != nil {
 			return nil, fmt.Errorf("invalid Image: %w", err)
 		}
-		// alternates of alternates not allowed per spec
-		d.Alternates = nil
+		// alternates of alternates not allowed per spec; the image is shared
+		// through the extractor's cache, so clear the entry on a copy
+		if d.Alternates != nil {
+			clone := *d
+			clone.Alternates = nil
+			d = &clone
+		}
 		img = d
 	}
 
